@@ -361,6 +361,13 @@ pub fn run_batch(
     deadline: Option<Instant>,
     watchdog: Duration,
 ) -> BatchStats {
+    let mut cfg = cfg.clone();
+    if engine != "e2" {
+        cfg.env.push(("NVSIM_NO_NS".into(), "1".into()));
+    }
+    let cfg = &cfg;
+    // no batch runs longer than this, whatever happens to its workers
+    let deadline = deadline.or(Some(Instant::now() + Duration::from_secs(if tier == Tier::Thorough { 4 * 3600 } else { 1200 })));
     let next = Arc::new(AtomicU64::new(first_index));
     let end = first_index + n;
     // circuit breaker: a change that makes many runs hang (each costs a full watchdog period) or
@@ -508,7 +515,13 @@ pub fn run_collect(cfg: &WorkerCfg, engine: &str, variant: &str, verif_seed: u64
 /// Executes one scenario in a fresh worker and returns the classes of violations
 /// for `property` (traps included).
 pub fn exec_once(cfg: &WorkerCfg, engine: &str, variant: &str, scenario: &Value, watchdog: Duration) -> Vec<Violation> {
-    let mut w = Worker::spawn(cfg);
+    let mut cfg = cfg.clone();
+    let mut watchdog = watchdog;
+    if engine != "e2" {
+        cfg.env.push(("NVSIM_NO_NS".into(), "1".into()));
+        watchdog = watchdog.min(Duration::from_secs(20));
+    }
+    let mut w = Worker::spawn(&cfg);
     let req = json!({"cmd": "exec", "engine": engine, "scenario": scenario});
     let out = match w.request(&req, watchdog) {
         ExecResult::Report(r) => r.violations,
